@@ -19,7 +19,7 @@ RULE = ("(v3: every interval argument is byte-compared with a copy taken before 
         "clip/extend: the result differs from the input)")
 EXHAUSTIVE = {"quick": True, "thorough": True}
 PARALLEL = 16
-MODEL_OPS = {"seq", "jaccard_matrix", "pileup", "pileup_events", "mask", "merge", "sort", "count_overlap", "intersect", "unique_intersect",
+MODEL_OPS = {"global_intersect", "pileup_bedgraph", "value_hist", "geo_sort", "streamed_clip", "streamed_extend", "seq", "jaccard_matrix", "pileup", "pileup_events", "mask", "merge", "sort", "count_overlap", "intersect", "unique_intersect",
              "contingency", "jaccard", "forbes", "geo_jaccard", "clip", "geo_clip", "extend", "geo_extend"}
 ASSUMPTIONS = [
     "intervals are 0 <= start <= stop <= size (merge, count_overlap, intersect, Forbes: start < stop); merge input is sorted by start (the code asserts it)",
@@ -345,6 +345,34 @@ def cases(tier, rng):
                 st = [[0, 0, 1 + k % sizes[0]]]
             sets.append(sorted(st))
         yield {"op": "jaccard_matrix", "sizes": sizes, "sets": sets}
+    # global_intersect: several chromosomes at once (string-encoded chromosome column)
+    for _ in range(3000 if big else 500):
+        sizes = [rng.choice([2, 3, 4, 6]) for _ in range(rng.choice([1, 2, 3]))]
+        A = [[c, a, b] for c, z in enumerate(sizes) for a, b in sorted(_rand_ivs(rng, z, rng.randrange(4), True))]
+        B = [[c, a, b] for c, z in enumerate(sizes) for a, b in sorted(_rand_ivs(rng, z, rng.randrange(4), True))]
+        yield {"op": "global_intersect", "sizes": sizes, "a": A, "b": B}
+    for S in (2, 3):     # exhaustive: one interval per operand per chromosome on two chromosomes
+        one = [[]] + [[list(x)] for x in _ivs(S)]
+        for a0 in one:
+            for a1 in one:
+                for b0 in one:
+                    for b1 in one:
+                        if big or rng.random() < 0.25:
+                            yield {"op": "global_intersect", "sizes": [S, S], "a": [[0] + x for x in a0] + [[1] + x for x in a1],
+                                   "b": [[0] + x for x in b0] + [[1] + x for x in b1]}
+    # intervals.pileup (bedGraph of the coverage), bedgraph.value_hist / from_runlength_array
+    for S in range(1, (5 if big else 4) + 1):
+        for ms in _multisets(S, 3):
+            yield {"op": "pileup_bedgraph", "iv": ms}
+            if big or rng.random() < 0.3:
+                yield {"op": "from_rla", "iv": ms, "size": S}
+    # intervals.extend (not size-aware): both / left / right
+    for mode in ("both", "left", "right"):
+        for k in (0, 1, 3):
+            yield {"op": "extend_plain", "mode": mode, "k": k, "iv": [[2, 5], [4, 4], [7, 9]]}
+    for _ in range(600 if big else 100):
+        pts = sorted(rng.sample(range(30), 2 * rng.randrange(0, 5)))
+        yield {"op": "value_hist", "bg": [[pts[i], pts[i + 1], rng.choice([0, 1, 1, 2, 5])] for i in range(0, len(pts), 2)]}
     # a few nested / duplicated operands for the two restricted functions (outside the domain: recorded as skipped)
     for A, B in [([[0, 3], [1, 2]], [[0, 1]]), ([[0, 2], [0, 2]], [[1, 3]]), ([[0, 1]], [[0, 2], [1, 3]])]:
         yield {"op": "count_overlap", "a": A, "b": B, "size": 3}
@@ -410,6 +438,16 @@ def cases(tier, rng):
         # Geometry.get_mask / get_pileup on several chromosomes (implementation vs per-base oracle)
         srt = sorted(rows)
         yield {"op": rng.choice(["geo_mask", "geo_pileup"]), "chrom_sizes": sizes, "rows": [list(r) for r in srt]}
+        yield {"op": "geo_sort", "chrom_sizes": sizes, "recs": [list(r) for r in rng.sample(rows, len(rows))] +
+               ([list(rows[0])[:2] + [rows[0][2]]] if rng.random() < 0.5 else [])}
+        yield {"op": "geo_info", "chrom_sizes": sizes}
+        # StreamedGeometry: one chunk per chromosome
+        yield dict(common, op="streamed_clip", start=[r[1] - rng.choice([0, 1, 4]) for r in rows],
+                   stop=[r[2] + rng.choice([0, 1, 40]) for r in rows])
+        yield dict(common, op="streamed_extend", start=[r[1] for r in rows], stop=[r[2] for r in rows],
+                   fwd=[rng.randrange(2) for _ in rows], len=rng.choice([0, 1, 3, 10]))
+        if all(r[1] < r[2] for r in srt):
+            yield {"op": "streamed_merge", "chrom_sizes": sizes, "rows": [list(r) for r in srt], "d": rng.choice([0, 1, 2, 5])}
         if all(r[1] < r[2] for r in srt):
             yield {"op": "geo_seq", "chrom_sizes": sizes, "rows": [list(r) for r in srt], "ds": [0, 1, 3, 0, 2]}
         ms = sorted(_rand_ivs(rng, size, rng.choice([2, 3, 5, 8])))
@@ -438,6 +476,16 @@ def nontrivial(c):
         return len(c["start"]) > 0
     if op in ("geo_mask", "geo_pileup", "geo_seq"):
         return len(c["rows"]) > 0
+    if op == "global_intersect":
+        return bool(c["a"]) and bool(c["b"]) and len({r[0] for r in c["a"] + c["b"]}) >= 2
+    if op in ("pileup_bedgraph", "from_rla"):
+        return len(c["iv"]) >= 2
+    if op == "value_hist":
+        return len(c["bg"]) >= 2
+    if op in ("geo_sort", "streamed_merge"):
+        return len(c.get("recs", c.get("rows", []))) >= 2
+    if op in ("streamed_clip", "streamed_extend"):
+        return len(c["start"]) > 0
     if op == "seq":
         return len(c["iv"]) >= 1 and any(d > 0 for d in c["ds"])
     if op == "jaccard_matrix":
@@ -545,6 +593,74 @@ def _impl_raw(c):
             dp, dm = geo.get_pileup(x).to_dict(), geo.get_mask(x).to_dict()
             return {"merges": merges, "pileup": [[int(v) for v in dp[n].tolist()] for n in names],
                     "mask": [[bool(v) for v in dm[n].tolist()] for n in names]}
+        if op == "global_intersect":
+            names = [f"chr{i + 1}" for i in range(len(c["sizes"]))]
+            enc = m["StringEncoding"](names)
+
+            def mk(rows):
+                ch = m["as_encoded_array"]([names[r[0]] for r in rows], enc) if rows else m["as_encoded_array"]([], enc)
+                return _snap(m["Interval"](ch, np.array([r[1] for r in rows], dtype=int), np.array([r[2] for r in rows], dtype=int)))
+            r = ar.global_intersect(mk(c["b"]), mk(c["a"]))
+            return {"recs": [[int(k), int(a), int(b)] for k, a, b in
+                             zip(np.asarray(r.chromosome.raw()).ravel().tolist(), r.start.tolist(), r.stop.tolist())]}
+        if op == "extend_plain":
+            r = iv.extend(_iv(c["iv"]), **{c["mode"]: c["k"]})
+            return {"iv": _pairs(r)}
+        if op == "pileup_bedgraph":
+            r = iv.pileup(_iv(c["iv"]))
+            return {"recs": [[int(a), int(b), int(v)] for a, b, v in zip(r.start.tolist(), r.stop.tolist(), r.value.tolist())]}
+        if op == "from_rla":
+            r = m["bg"].from_runlength_array("chr1", m["bg"].get_pileup(_iv(c["iv"]), c["size"]))
+            return {"recs": [[int(a), int(b), int(v)] for a, b, v in zip(r.start.tolist(), r.stop.tolist(), r.value.tolist())],
+                    "names": sorted(set(r.chromosome.tolist()))}
+        if op == "value_hist":
+            from bionumpy.datatypes import BedGraph
+            g = BedGraph(["c"] * len(c["bg"]), np.array([r[0] for r in c["bg"]], dtype=int),
+                         np.array([r[1] for r in c["bg"]], dtype=int), np.array([r[2] for r in c["bg"]], dtype=int))
+            h = m["bg"].value_hist(g)
+            return {"hist": [int(v) for v in np.asarray(h).tolist()]} if all(float(v) == int(v) for v in np.asarray(h).tolist()) \
+                else {"hist": [float(v) for v in h]}
+        if op in ("geo_sort", "geo_info", "streamed_merge"):
+            sizes = {f"chr{i + 1}": z for i, z in enumerate(c["chrom_sizes"])}
+            names = list(sizes)
+            if op == "geo_info":
+                from bionumpy.datatypes import ChromosomeSize
+                g = m["Geometry"](sizes)
+                g2 = m["Geometry"].from_chrom_sizes(ChromosomeSize(names, list(sizes.values())))
+                return {"names": g.names(), "size": int(g.size()), "each": [int(g.chrom_size(n)) for n in names],
+                        "names2": g2.names(), "size2": int(g2.size()), "repr": repr(g), "str_has": all(n in str(g) for n in names)}
+            if op == "geo_sort":
+                recs = c["recs"]
+                x = _snap(m["Interval"]([names[r[0]] for r in recs], np.array([r[1] for r in recs], dtype=int),
+                                        np.array([r[2] for r in recs], dtype=int)))
+                r = m["Geometry"](sizes).sort(x)
+                ch = r.chromosome
+                codes = np.asarray(ch.raw()).ravel().tolist() if hasattr(ch, "raw") else [names.index(n) for n in ch.tolist()]
+                return {"recs": [[int(k), int(a), int(b)] for k, a, b in zip(codes, r.start.tolist(), r.stop.tolist())]}
+            from bionumpy.genomic_data.geometry import StreamedGeometry
+            chunks = [_snap(m["Interval"]([names[i]] * len(rs), np.array([r[1] for r in rs], dtype=int), np.array([r[2] for r in rs], dtype=int)))
+                      for i in range(len(names)) for rs in [[r for r in c["rows"] if r[0] == i]] if rs]
+            out = list(StreamedGeometry(sizes).merge_intervals(iter(chunks), c["d"]))
+            return {"recs": [[names.index(n), int(a), int(b)] for o in out for n, a, b in
+                             zip(o.chromosome.tolist(), o.start.tolist(), o.stop.tolist())]}
+        if op in ("streamed_clip", "streamed_extend"):
+            from bionumpy.genomic_data.geometry import StreamedGeometry
+            sizes = {f"chr{i + 1}": z for i, z in enumerate(c["chrom_sizes"])}
+            names = list(sizes)
+            idx = list(range(len(c["start"])))
+            chunks = []
+            for k in range(0, len(idx), 2):        # chunks of two rows, in the given row order
+                part = idx[k:k + 2]
+                ch = [names[c["chrom"][i]] for i in part]
+                st = np.array([c["start"][i] for i in part], dtype=int)
+                sp = np.array([c["stop"][i] for i in part], dtype=int)
+                if op == "streamed_clip":
+                    chunks.append(_snap(m["Interval"](ch, st, sp)))
+                else:
+                    chunks.append(_snap(m["StrandedInterval"](ch, st, sp, ["+" if c["fwd"][i] else "-" for i in part])))
+            sg = StreamedGeometry(sizes)
+            out = list(sg.clip(iter(chunks)) if op == "streamed_clip" else sg.extend_to_size(iter(chunks), c["len"]))
+            return {"iv": [p for o in out for p in _pairs(o)]}
         if op == "jaccard_matrix":
             sizes = {f"chr{i + 1}": z for i, z in enumerate(c["sizes"])}
             sets = [_snap(m["Interval"]([f"chr{r[0] + 1}" for r in st], np.array([r[1] for r in st], dtype=int),
@@ -674,6 +790,50 @@ def oracle(c):
         return {"iv": _runs([_cov(I, p) > 0 for p in range(size)], c["d"])}
     if op == "sort":
         return {"recs": sorted([list(r) for r in c["recs"]])}
+    if op == "global_intersect":
+        dense = []
+        for ci, z in enumerate(c["sizes"]):
+            A = [(r[1], r[2]) for r in c["a"] if r[0] == ci]
+            B = [(r[1], r[2]) for r in c["b"] if r[0] == ci]
+            if not (_valid(A, z) and _valid(B, z) and _disjoint(A) and _disjoint(B)):
+                return SKIP
+            dense.append([1 if (_cov(A, p) and _cov(B, p)) else 0 for p in range(z)])
+        return {"dense": dense}
+    if op == "extend_plain":
+        k, mode = c["k"], c["mode"]
+        return {"iv": [[a - (k if mode in ("both", "left") else 0), b + (k if mode in ("both", "right") else 0)] for a, b in c["iv"]]}
+    if op == "pileup_bedgraph":
+        I = c["iv"]
+        if not I:
+            return {"lo": 0, "hi": 0, "dense": []}
+        if any(a >= b for a, b in I):
+            return SKIP
+        lo, hi = min(a for a, b in I), max(b for a, b in I)
+        return {"lo": lo, "hi": hi, "dense": [_cov(I, p) for p in range(lo, hi)]}
+    if op == "from_rla":
+        if not _valid(c["iv"], c["size"], empties=False):
+            return SKIP
+        return {"dense": [_cov(c["iv"], p) for p in range(c["size"])], "names": ["chr1"]}
+    if op == "value_hist":
+        bg = c["bg"]
+        if not bg:
+            return SKIP
+        return {"hist": [sum(b - a for a, b, v in bg if v == k) for k in range(max(v for a, b, v in bg) + 1)]}
+    if op == "geo_info":
+        z = c["chrom_sizes"]
+        names = [f"chr{i + 1}" for i in range(len(z))]
+        return {"names": names, "size": sum(z), "each": list(z), "names2": names, "size2": sum(z),
+                "repr": "Geometry(" + repr(dict(zip(names, z))) + ")", "str_has": True}
+    if op == "geo_sort":
+        return {"sorted_by": "chromosome,start", "multiset": sorted([list(r) for r in c["recs"]])}
+    if op == "streamed_merge":
+        out = []
+        for i, z in enumerate(c["chrom_sizes"]):
+            I = [(r[1], r[2]) for r in c["rows"] if r[0] == i]
+            if not _valid(I, z, empties=False):
+                return SKIP
+            out += [[i, a, b] for a, b in _runs([_cov(I, p) > 0 for p in range(z)], c["d"])]
+        return {"recs": out}
     if op == "seq":
         I, size = c["iv"], c["size"]
         if not _valid(I, size, empties=False) or I != sorted(I):
@@ -747,7 +907,7 @@ def oracle(c):
                 return SKIP
             out.append([(int(_cov(I, p) > 0) if op == "geo_mask" else _cov(I, p)) for p in range(z)])
         return {"dict": out}
-    if op in ("clip", "geo_clip"):
+    if op in ("clip", "geo_clip", "streamed_clip"):
         out = []
         for s, e, z in zip(c["start"], c["stop"], c["sizes"]):
             if not (s <= e and s <= z and e >= 0):
@@ -755,7 +915,7 @@ def oracle(c):
             ps = [p for p in range(min(s, 0), max(e, z)) if s <= p < e and 0 <= p < z]   # the bases inside the contig
             out.append([ps[0], ps[-1] + 1] if ps else None)
         return {"clip": out, "in": [list(x) for x in zip(c["start"], c["stop"], c["sizes"])]}
-    if op in ("extend", "geo_extend"):
+    if op in ("extend", "geo_extend", "streamed_extend"):
         out, L = [], c["len"]
         for s, e, z, f in zip(c["start"], c["stop"], c["sizes"], c["fwd"]):
             if not (0 <= s <= e <= z) or L < 0:
@@ -774,7 +934,26 @@ def agree(c, got, exp):
     if op == "intersect":
         size = c["size"]
         return [_cov(got["iv"], p) for p in range(size)] == exp["dense"] and all(0 <= a < b <= size for a, b in got["iv"])
-    if op in ("clip", "geo_clip"):
+    if op == "global_intersect":
+        for ci, z in enumerate(c["sizes"]):
+            pieces = [(r[1], r[2]) for r in got["recs"] if r[0] == ci]
+            if [_cov(pieces, p) for p in range(z)] != exp["dense"][ci] or not all(0 <= a < b <= z for a, b in pieces):
+                return False
+        return all(0 <= r[0] < len(c["sizes"]) for r in got["recs"])
+    if op in ("pileup_bedgraph", "from_rla"):
+        recs = got["recs"]
+        lo, hi = (exp["lo"], exp["hi"]) if op == "pileup_bedgraph" else (0, c["size"])
+        pos, out = lo, []
+        for a, b, v in recs:            # records tile [lo, hi) in order, without gaps or overlaps
+            if a != pos or b <= a:
+                return False
+            out += [v] * (b - a)
+            pos = b
+        return pos == hi and out == exp["dense"] and got.get("names", None) == exp.get("names", None)
+    if op == "geo_sort":
+        r = got["recs"]
+        return sorted(r) == exp["multiset"] and all(r[i][:2] <= r[i + 1][:2] for i in range(len(r) - 1))
+    if op in ("clip", "geo_clip", "streamed_clip"):
         for (s2, e2), want, (s, e, z) in zip(got["iv"], exp["clip"], exp["in"]):
             if want is None:       # nothing of the interval is inside: any empty interval inside the contig is right
                 if not (0 <= s2 <= z and 0 <= e2 <= z and s2 >= e2):
@@ -785,10 +964,22 @@ def agree(c, got, exp):
     return core.canon(got) == core.canon(exp)
 
 
+def agree_model(c, got, m):
+    """exact, except Geometry.sort: entries that tie on (chromosome, start) may come in any order (NumPy's default sort
+    is not stable), so both sides are normalised inside such ties"""
+    if c["op"] == "geo_sort" and isinstance(got, dict) and isinstance(m, dict) and "recs" in got and "recs" in m:
+        return sorted(got["recs"]) == sorted(m["recs"]) and [r[:2] for r in got["recs"]] == [r[:2] for r in m["recs"]]
+    return core.canon(got) == core.canon(m)
+
+
 def finding_key(c, got, exp):
     op = c["op"]
     if isinstance(got, dict) and "mutated_arguments" in got:
         return f"{op}:modifies-its-argument-{'-'.join(got['mutated_arguments'])}"
+    if isinstance(got, dict) and "err" in got and op == "extend_plain":
+        return f"extend:{'undirected' if c['mode'] in ('left', 'right') else c['mode']}-raises-{got['err'].split(':')[-1]}"
+    if isinstance(got, dict) and "err" in got and op == "pileup_bedgraph" and not c["iv"]:
+        return f"{op}:empty-input-raises-{got['err'].split(':')[-1]}"
     if isinstance(got, dict) and "err" in got:
         if op in ("jaccard", "forbes") and (not any(x["a"] for x in c["chroms"]) or not any(x["b"] for x in c["chroms"])):
             return f"{op}:empty-operand-raises-{got['err'].split(':')[-1]}"
